@@ -1684,4 +1684,405 @@ end examplesReload
 
 end shellC02Reload
 
+/-! ## C02 by conn id with the EXACT uplink step (audit 5, B1)
+
+In `IdHist` / `IdHistX` the block of an `uplink` event is ANY list of set operations whose KIND the event allows; the
+ARGUMENTS are free, so one ACK / NAK datagram "explains" the retirement of any subset of a set.  The exact uplink step
+exists by index for one event (`C02_shell_uplink_refines`: the abstraction moves by the fold of the GLOBAL spec machine
+`specStep` over `uplinkTrace`, the events the datagram decodes to).  This section projects that fold onto ONE link
+(`upBlock`) and puts it into the by-conn-id history (`IdHistU.uplink`): the block of an uplink datagram is a FUNCTION of
+the state reached, of the index the link has there and of the datagram bytes - per decoded event, in order, the event's
+OWN operation (`opOf`: the cumulative ACK number, the SRTLA-ACKed number, the NAKed number, a reset) iff the global spec
+machine changes THIS link's set at that event, nothing otherwise.  Which link the spec machine charges is explicit in
+`specSrtlaAck` (arrival link if it holds the number, else the first other holder) and `specNak` (the tracker's
+remembered present carrier, no fall-through; else the first holder); a number the link does not hold leaves it
+untouched (`specErase` of an absent number is the identity, so the block is empty).  `other` is restricted to hk /
+configuration / injection / stamp events. -/
+
+section shellC02UplinkById
+open Srtla Srtla.Link Srtla.SysDir Srtla.Props.SysReload
+
+variable {F : Type} [Scalar F]
+
+/-- The per-link set operation a fan-out event performs, with ITS OWN argument. -/
+def opOf : Ev → Option KOp
+  | .send _ seq _ => some (.send (toI32 seq))
+  | .track _ _ _ => none
+  | .cumAck a _ => some (.cumAck (toI32 a))
+  | .srtlaAck _ seq _ _ => some (.retire (toI32 seq))
+  | .nak n _ => some (.retire (toI32 n))
+  | .reset _ _ _ => some .reset
+
+/-- Projection of ONE event of C02's global spec machine onto link `j`, in spec state `sp`: the event's own operation
+iff the spec machine changes the set of link `j` at this event. -/
+def projEv (sp : Spec) (j : Nat) (e : Ev) : List KOp :=
+  match opOf e with
+  | none => []
+  | some op => if (specStep sp e).keys[j]? = sp.keys[j]? then [] else [op]
+
+/-- Projection of a list of spec events onto link `j`, the spec state moving along. -/
+def upBlock (sp : Spec) (j : Nat) : List Ev → List KOp
+  | [] => []
+  | e :: es => projEv sp j e ++ upBlock (specStep sp e) j es
+
+theorem mapIdx_if_get (ks : List (List Int)) (i m : Nat) (g : List Int → List Int) (k : List Int)
+    (h : ks[m]? = some k) :
+    (ks.mapIdx fun j k => if j = i then g k else k)[m]? = some (if m = i then g k else k) := by
+  rw [List.getElem?_mapIdx, h]; rfl
+
+theorem specScan_get (ks : List (List Int)) (s : Int) (m : Nat) (k : List Int) (h : ks[m]? = some k) :
+    (specScan ks s)[m]? = some k ∨ (specScan ks s)[m]? = some (specErase k s) := by
+  induction ks generalizing m with
+  | nil => simp at h
+  | cons k0 rest ih =>
+    unfold specScan
+    split
+    · cases m with
+      | zero =>
+        rw [List.getElem?_cons_zero] at h ⊢
+        cases h; exact .inr rfl
+      | succ m =>
+        rw [List.getElem?_cons_succ] at h ⊢
+        exact .inl h
+    · cases m with
+      | zero =>
+        rw [List.getElem?_cons_zero] at h ⊢
+        exact .inl h
+      | succ m =>
+        rw [List.getElem?_cons_succ] at h ⊢
+        exact ih m h
+
+theorem specOthers_get (ks : List (List Int)) (j skip : Nat) (s : Int) (m : Nat) (k : List Int)
+    (h : ks[m]? = some k) :
+    (specOthers ks j skip s)[m]? = some k ∨ (specOthers ks j skip s)[m]? = some (specErase k s) := by
+  induction ks generalizing m j with
+  | nil => simp at h
+  | cons k0 rest ih =>
+    unfold specOthers
+    split
+    · cases m with
+      | zero =>
+        rw [List.getElem?_cons_zero] at h ⊢
+        exact .inl h
+      | succ m =>
+        rw [List.getElem?_cons_succ] at h ⊢
+        exact ih (j + 1) m h
+    · split
+      · cases m with
+        | zero =>
+          rw [List.getElem?_cons_zero] at h ⊢
+          cases h; exact .inr rfl
+        | succ m =>
+          rw [List.getElem?_cons_succ] at h ⊢
+          exact .inl h
+      · cases m with
+        | zero =>
+          rw [List.getElem?_cons_zero] at h ⊢
+          exact .inl h
+        | succ m =>
+          rw [List.getElem?_cons_succ] at h ⊢
+          exact ih (j + 1) m h
+
+/-- One event of the global spec machine, one link: the link's set stays or moves by the event's OWN operation. -/
+theorem specStep_get (sp : Spec) (e : Ev) (j : Nat) (k : List Int) (h : sp.keys[j]? = some k) :
+    ∃ k', (specStep sp e).keys[j]? = some k' ∧ (k' = k ∨ ∃ op, opOf e = some op ∧ k' = kstep k op) := by
+  have erase : ∀ i s, ∃ k', (specEraseAt sp.keys i s)[j]? = some k' ∧ (k' = k ∨ k' = specErase k s) := by
+    intro i s
+    refine ⟨_, mapIdx_if_get sp.keys i j (fun k => specErase k s) k h, ?_⟩
+    split
+    · exact .inr rfl
+    · exact .inl rfl
+  have ofOr : ∀ {ks' : List (List Int)} {s : Int}, (ks'[j]? = some k ∨ ks'[j]? = some (specErase k s)) →
+      ∃ k', ks'[j]? = some k' ∧ (k' = k ∨ k' = specErase k s) := by
+    intro ks' s hh
+    rcases hh with hh | hh
+    · exact ⟨_, hh, .inl rfl⟩
+    · exact ⟨_, hh, .inr rfl⟩
+  cases e with
+  | send i seq t =>
+    refine ⟨_, mapIdx_if_get sp.keys i j (fun k => specRegister k (toI32 seq)) k h, ?_⟩
+    split
+    · exact .inr ⟨_, rfl, rfl⟩
+    · exact .inl rfl
+  | track seq cid ts => exact ⟨k, h, .inl rfl⟩
+  | cumAck a now =>
+    refine ⟨specCumAck k (toI32 a), ?_, .inr ⟨_, rfl, rfl⟩⟩
+    show (sp.keys.map fun k => specCumAck k (toI32 a))[j]? = _
+    rw [List.getElem?_map, h]; rfl
+  | srtlaAck idx seq cl now =>
+    have key : ∃ k', (specSrtlaAck sp.keys idx (toI32 seq))[j]? = some k' ∧
+        (k' = k ∨ k' = specErase k (toI32 seq)) := by
+      unfold specSrtlaAck
+      split
+      · exact ⟨k, h, .inl rfl⟩
+      · split
+        · exact erase idx _
+        · exact ofOr (specOthers_get sp.keys 0 idx _ j k h)
+    obtain ⟨k', h1, h2⟩ := key
+    exact ⟨k', h1, h2.imp id fun h => ⟨_, rfl, h⟩⟩
+  | nak n now =>
+    have key : ∃ k', (specNak sp n now)[j]? = some k' ∧ (k' = k ∨ k' = specErase k (toI32 n)) := by
+      unfold specNak
+      split
+      · split
+        · exact erase _ _
+        · exact ofOr (specScan_get sp.keys _ j k h)
+      · exact ofOr (specScan_get sp.keys _ j k h)
+    obtain ⟨k', h1, h2⟩ := key
+    exact ⟨k', h1, h2.imp id fun h => ⟨_, rfl, h⟩⟩
+  | reset i kind now =>
+    refine ⟨_, mapIdx_if_get sp.keys i j (fun _ => []) k h, ?_⟩
+    split
+    · exact .inr ⟨_, rfl, rfl⟩
+    · exact .inl rfl
+
+theorem projEv_fold (sp : Spec) (e : Ev) (j : Nat) (k : List Int) (h : sp.keys[j]? = some k) :
+    (specStep sp e).keys[j]? = some ((projEv sp j e).foldl kstep k) := by
+  obtain ⟨k', hk', hor⟩ := specStep_get sp e j k h
+  unfold projEv
+  cases hop : opOf e with
+  | none =>
+    rcases hor with rfl | ⟨op, ho, -⟩
+    · exact hk'
+    · rw [hop] at ho; cases ho
+  | some op =>
+    dsimp only
+    by_cases hc : (specStep sp e).keys[j]? = sp.keys[j]?
+    · rw [if_pos hc, hc, h]; rfl
+    · rw [if_neg hc]
+      rcases hor with rfl | ⟨op', ho, rfl⟩
+      · exact absurd (hk'.trans h.symm) hc
+      · rw [hop] at ho; cases ho; exact hk'
+
+/-- **The fold of the global spec machine, read on ONE link, is the fold of the per-link set machine over the
+projected block.** -/
+theorem upBlock_fold (sp : Spec) (j : Nat) (k : List Int) (tr : List Ev) (h : sp.keys[j]? = some k) :
+    (tr.foldl specStep sp).keys[j]? = some ((upBlock sp j tr).foldl kstep k) := by
+  induction tr generalizing sp k with
+  | nil => exact h
+  | cons e es ih =>
+    rw [List.foldl_cons]
+    show _ = some ((projEv sp j e ++ upBlock (specStep sp e) j es).foldl kstep k)
+    rw [List.foldl_append]
+    exact ih _ _ (projEv_fold sp e j k h)
+
+/-- A number the link does not hold leaves it untouched: the projected block of an SRTLA ACK / NAK event is empty or
+its one retirement is the identity on the link's set. -/
+theorem projEv_not_held (sp : Spec) (j : Nat) (k : List Int) (e : Ev) (x : Int) (h : sp.keys[j]? = some k)
+    (he : opOf e = some (.retire x)) (hx : x ∉ k) : (specStep sp e).keys[j]? = some k := by
+  obtain ⟨k', hk', hor⟩ := specStep_get sp e j k h
+  rcases hor with rfl | ⟨op, ho, rfl⟩
+  · exact hk'
+  · rw [he] at ho; cases ho
+    have : specErase k x = k := by
+      unfold specErase
+      rw [List.filter_eq_self]
+      intro y hy
+      have : y ≠ x := fun e => hx (e ▸ hy)
+      simpa using this
+    rw [hk']; exact congrArg some this
+
+/-- As `IdHistX`, with the EXACT block of an `uplink` event as well: `upBlock` of the abstraction of the state
+reached, at the index `j` the link has there, over the events the datagram decodes to (`uplinkTrace`, `idx` the
+index of the ARRIVAL link); a datagram on an unknown conn id contributes nothing.  `other` is what remains: hk,
+configuration, injection, stamp, timeout-sync events. -/
+inductive IdHistU : Sys.Sys F → List Sys.Ev → Nat → List KOp → Prop
+  | nil {s : Sys.Sys F} {c : Nat} {l : FLink F} : l ∈ s.links → l.core.connId = c → IdHistU s [] c []
+  | client {s : Sys.Sys F} {now : Nat} {pkt : Sys.Bytes} {evs : List Sys.Ev} {c j : Nat} {l : FLink F}
+      {rest : List KOp} :
+      s.links[j]? = some l → l.core.connId = c → IdHistU (Sys.step s (.client now pkt)).1 evs c rest →
+      IdHistU s (.client now pkt :: evs) c (clientBlock s now pkt j ++ rest)
+  | flush {s : Sys.Sys F} {now : Nat} {evs : List Sys.Ev} {c j : Nat} {l : FLink F} {rest : List KOp} :
+      s.links[j]? = some l → l.core.connId = c → IdHistU (Sys.step s (.flush now)).1 evs c rest →
+      IdHistU s (.flush now :: evs) c (flushBlock s j ++ rest)
+  | uplink {s : Sys.Sys F} {now cid : Nat} {data : Sys.Bytes} {evs : List Sys.Ev} {c j idx : Nat} {l : FLink F}
+      {rest : List KOp} :
+      s.links[j]? = some l → l.core.connId = c → s.links.findIdx? (·.core.connId == cid) = some idx →
+      IdHistU (Sys.step s (.uplink now cid data)).1 evs c rest →
+      IdHistU s (.uplink now cid data :: evs) c
+        (upBlock (absSys s) j (uplinkTrace s.cfg.classic idx now data) ++ rest)
+  | uplinkUnknown {s : Sys.Sys F} {now cid : Nat} {data : Sys.Bytes} {evs : List Sys.Ev} {c j : Nat} {l : FLink F}
+      {rest : List KOp} :
+      s.links[j]? = some l → l.core.connId = c → s.links.findIdx? (·.core.connId == cid) = none →
+      IdHistU (Sys.step s (.uplink now cid data)).1 evs c rest →
+      IdHistU s (.uplink now cid data :: evs) c rest
+  | other {s : Sys.Sys F} {e : Sys.Ev} {evs : List Sys.Ev} {c j : Nat} {l : FLink F} {ks rest : List KOp} :
+      e.isReload = false → (∀ now pkt, e ≠ .client now pkt) → (∀ now, e ≠ .flush now) →
+      (∀ now cid data, e ≠ .uplink now cid data) →
+      s.links[j]? = some l → l.core.connId = c → (∀ k ∈ ks, kopOk (evOps s e j) k) →
+      IdHistU (Sys.step s e).1 evs c rest → IdHistU s (e :: evs) c (ks ++ rest)
+  | reload {s : Sys.Sys F} {now : Nat} {addrs : List Nat} {outs : List (Option Nat)} {evs : List Sys.Ev} {c : Nat}
+      {l : FLink F} {rest : List KOp} :
+      l ∈ s.links → l.core.connId = c → addrs.contains l.addr = true →
+      IdHistU (Sys.step s (.reload now addrs outs)).1 evs c rest →
+      IdHistU s (.reload now addrs outs :: evs) c rest
+
+theorem absSys_keys_get (s : Sys.Sys F) (j : Nat) (l : FLink F) (h : s.links[j]? = some l) :
+    (absSys s).keys[j]? = some l.core.keys := by
+  show ((Sys.cores s.links).map Conn.keys)[j]? = _
+  unfold Sys.cores
+  rw [List.getElem?_map, List.getElem?_map, h]; rfl
+
+/-- **C02 at shell level by conn id, every run WITH reloads, exact data path AND exact uplink step.**  As
+`C02_shell_refines_exact_by_id`, with the history `IdHistU`: additionally the block of every `uplink` event is
+`upBlock (absSys s) j (uplinkTrace s.cfg.classic idx now data)` - `s` the state the run had reached, `j` the index
+the link with this conn id has THERE, `idx` the index of the arrival link - i.e. the projection onto this link of the
+fold of C02's global spec machine over the events the datagram decodes to: no free argument is left on the ACK / NAK
+path either.  So across reloads: a cumulative SRT ACK contributes exactly its own `cumAck a` (on every link whose
+set it changes), each SRTLA-ACKed / NAKed number contributes `retire` of THAT number on the link the spec machine
+charges (`specSrtlaAck` / `specNak`) and nothing on every other link, REG3 / REG_ERR contribute a `reset` on the
+arrival link only; a link that does not hold a number is untouched by it (`projEv_not_held`). -/
+theorem C02_shell_refines_uplink_by_id (s : Sys.Sys F) (evs : List Sys.Ev) (hinv : ShellInv s) (hI : Sys.Inv s)
+    (hf : FreshRun s evs) :
+    ∀ l' ∈ (Sys.run s evs).1.links, ∃ pre post k0 hist, evs = pre ++ post ∧
+      Origin s l'.core.connId pre k0 ∧ IdHistU (Sys.run s pre).1 post l'.core.connId hist ∧
+      l'.core.keys = hist.foldl kstep k0 ∧
+      l'.core.inFlight = (l'.core.keys.length : Int) ∧ 0 ≤ l'.core.inFlight ∧ l'.core.keys.Nodup ∧
+      ∀ m ∈ (Sys.run s evs).1.links, m.core.connId = l'.core.connId → m = l' := by
+  have key : ∀ (evs : List Sys.Ev) (s : Sys.Sys F), ShellInv s → Sys.Inv s → FreshRun s evs →
+      ∀ l' ∈ (Sys.run s evs).1.links, ∃ pre post k0 hist, evs = pre ++ post ∧
+        Origin s l'.core.connId pre k0 ∧ IdHistU (Sys.run s pre).1 post l'.core.connId hist ∧
+        l'.core.keys = hist.foldl kstep k0 := by
+    intro evs
+    induction evs with
+    | nil =>
+      intro s _ _ _ l' hl'
+      exact ⟨[], [], _, [], rfl, .start hl' rfl, .nil hl' rfl, rfl⟩
+    | cons e es ih =>
+      intro s hinv hI hf l' hl'
+      obtain ⟨pre, post, k0, hist, hsplit, horig, hhist, hkeys⟩ :=
+        ih (Sys.step s e).1 (hinv.step e) (Inv_step_fresh s hI e hf.1) hf.2 l' hl'
+      cases horig with
+      | created h1 h2 =>
+        exact ⟨_, post, [], hist, by rw [hsplit]; rfl, Origin.cons_created h1 h2, hhist, hkeys⟩
+      | start hl1 hc1 =>
+        rename_i l1
+        have hes : es = post := hsplit
+        subst hes
+        have back : e.isReload = false → ∃ j l0, (Sys.step s e).1.links[j]? = some l1 ∧ s.links[j]? = some l0 ∧
+            l0.core.connId = l'.core.connId ∧
+            ∃ kops : List KOp, (∀ k ∈ kops, kopOk (evOps s e j) k) ∧ l1.core.keys = kops.foldl kstep l0.core.keys := by
+          intro hnr
+          obtain ⟨j, hj, hget⟩ := List.getElem_of_mem hl1
+          have h1 : (Sys.step s e).1.links[j]? = some l1 := by rw [List.getElem?_eq_getElem hj, hget]
+          obtain ⟨l0, hl0, hid, kops, hk1, hk2⟩ := step_keys_at s e hnr (shellInv_all hinv) h1
+          exact ⟨j, l0, h1, hl0, hid.trans hc1, kops, hk1, hk2⟩
+        have other : e.isReload = false → (∀ now pkt, e ≠ .client now pkt) → (∀ now, e ≠ .flush now) →
+            (∀ now cid data, e ≠ .uplink now cid data) →
+            ∃ pre post k0 hist, e :: es = pre ++ post ∧ Origin s l'.core.connId pre k0 ∧
+              IdHistU (Sys.run s pre).1 post l'.core.connId hist ∧ l'.core.keys = hist.foldl kstep k0 := by
+          intro hnr hc hfl hup
+          obtain ⟨j, l0, -, hl0, hid, kops, hk1, hk2⟩ := back hnr
+          refine ⟨[], e :: es, l0.core.keys, kops ++ hist, rfl, .start (List.mem_of_getElem? hl0) hid,
+            .other hnr hc hfl hup hl0 hid hk1 hhist, ?_⟩
+          rw [List.foldl_append, ← hk2]
+          exact hkeys
+        cases e with
+        | reload now addrs outs =>
+          rcases Sys.mem_reload hl1 with ⟨hm, ha⟩ | ⟨id, a, -, hid, rfl⟩
+          · exact ⟨[], _ :: es, l1.core.keys, hist, rfl, .start hm hc1, .reload hm hc1 ha hhist, hkeys⟩
+          · have hc : l'.core.connId = id := hc1.symm
+            refine ⟨[.reload now addrs outs], es, [], hist, rfl, ?_, hhist, hkeys⟩
+            refine Origin.created (s := s) (pre := []) ?_ ?_
+            · rw [hc]; exact (hf.1 now addrs outs rfl).2 id hid
+            · rw [hc]; exact List.mem_map.2 ⟨_, hl1, rfl⟩
+        | client now pkt =>
+          obtain ⟨j, l0, h1, hl0, hid, -⟩ := back rfl
+          obtain ⟨l1', hl1', hk, -⟩ := client_keys_exact s now pkt hI.nodup j l0 hl0
+          have : l1' = l1 := by rw [hl1'] at h1; exact Option.some.inj h1
+          subst this
+          refine ⟨[], _ :: es, l0.core.keys, clientBlock s now pkt j ++ hist, rfl,
+            .start (List.mem_of_getElem? hl0) hid, .client hl0 hid hhist, ?_⟩
+          rw [List.foldl_append, ← hk]
+          exact hkeys
+        | flush now =>
+          obtain ⟨j, l0, h1, hl0, hid, -⟩ := back rfl
+          obtain ⟨l1', hl1', hk, -⟩ := C02_shell_flush_exact s now j l0 hl0
+          have : l1' = l1 := by rw [hl1'] at h1; exact Option.some.inj h1
+          subst this
+          refine ⟨[], _ :: es, l0.core.keys, flushBlock s j ++ hist, rfl,
+            .start (List.mem_of_getElem? hl0) hid, .flush hl0 hid hhist, ?_⟩
+          have hb : (flushBlock s j).foldl kstep l0.core.keys = l1'.core.keys := by
+            unfold flushBlock
+            rw [hl0]
+            dsimp only
+            rw [foldl_sends, hk]
+          rw [List.foldl_append, hb]
+          exact hkeys
+        | uplink now cid data =>
+          obtain ⟨j, l0, h1, hl0, hid, -⟩ := back rfl
+          cases hfi : s.links.findIdx? (·.core.connId == cid) with
+          | none =>
+            have hst : Sys.step s (.uplink now cid data) = (s, {}) := Uplink.unknown_link s cid data now hfi
+            rw [hst] at h1
+            have : l0 = l1 := Option.some.inj (hl0.symm.trans h1)
+            subst this
+            exact ⟨[], _ :: es, l0.core.keys, hist, rfl, .start (List.mem_of_getElem? hl0) hid,
+              .uplinkUnknown hl0 hid hfi hhist, hkeys⟩
+          | some idx =>
+            have href := C02_shell_uplink_refines s now cid data idx hinv hfi
+            have hfold := upBlock_fold (absSys s) j l0.core.keys (uplinkTrace s.cfg.classic idx now data)
+              (absSys_keys_get s j l0 hl0)
+            rw [← href, absSys_keys_get _ j l1 h1] at hfold
+            have hk : l1.core.keys =
+                (upBlock (absSys s) j (uplinkTrace s.cfg.classic idx now data)).foldl kstep l0.core.keys :=
+              Option.some.inj hfold
+            refine ⟨[], _ :: es, l0.core.keys,
+              upBlock (absSys s) j (uplinkTrace s.cfg.classic idx now data) ++ hist, rfl,
+              .start (List.mem_of_getElem? hl0) hid, .uplink hl0 hid hfi hhist, ?_⟩
+            rw [List.foldl_append, ← hk]
+            exact hkeys
+        | hk now =>
+          exact other rfl (fun _ _ h => by cases h) (fun _ h => by cases h) (fun _ _ _ h => by cases h)
+        | setCfg cfg =>
+          exact other rfl (fun _ _ h => by cases h) (fun _ h => by cases h) (fun _ _ _ h => by cases h)
+        | crit d =>
+          exact other rfl (fun _ _ h => by cases h) (fun _ h => by cases h) (fun _ _ _ h => by cases h)
+        | failNext c =>
+          exact other rfl (fun _ _ h => by cases h) (fun _ h => by cases h) (fun _ _ _ h => by cases h)
+        | failAfter c k =>
+          exact other rfl (fun _ _ h => by cases h) (fun _ h => by cases h) (fun _ _ _ h => by cases h)
+        | failBind c =>
+          exact other rfl (fun _ _ h => by cases h) (fun _ h => by cases h) (fun _ _ _ h => by cases h)
+        | stamp idx w ld ccb cct =>
+          exact other rfl (fun _ _ h => by cases h) (fun _ h => by cases h) (fun _ _ _ h => by cases h)
+        | syncTimeout =>
+          exact other rfl (fun _ _ h => by cases h) (fun _ h => by cases h) (fun _ _ _ h => by cases h)
+  intro l' hl'
+  obtain ⟨pre, post, k0, hist, h1, h2, h3, h4⟩ := key evs s hinv hI hf l' hl'
+  obtain ⟨h5, h6, h7⟩ := (C02_inflight_eq_card_run_reload s evs hinv).2 l' hl'
+  exact ⟨pre, post, k0, hist, h1, h2, h3, h4, h5, h6, h7,
+    fun m hm hc => eq_of_mem_of_connId (Inv_run_reload s hI evs hf).nodup hm hl' hc⟩
+
+section examplesUplinkById
+
+local instance exScalarU : Scalar Int := Select.fixScalar
+
+/-- On `exS` / `exRunR` (two reloads; non-pristine start): the SRT ACK of 40 arrives on conn id 1 (index 0) in the
+state after `[flush, exReload]` (links 1, 3, 7, 8; sets `[40, 41]`, `[]`, `[]`, `[]`): link 1's block is exactly
+`[cumAck 40]`, link 3's (index 1, empty set: unchanged) is `[]`.  The NAK of 41 one event later: link 1 - the
+tracker's remembered carrier, which holds 41 - gets exactly `[retire 41]`; link 3, which does not hold 41, gets
+NOTHING.  Instance of the theorem on that run. -/
+example :
+    (Sys.run exS (exRunR.take 2)).1.links.findIdx? (·.core.connId == 1) = some 0 ∧
+    upBlock (absSys (Sys.run exS (exRunR.take 2)).1) 0
+      (uplinkTrace (Sys.run exS (exRunR.take 2)).1.cfg.classic 0 5010
+        [0x80, 0x02, 0, 0, 0, 0, 0, 0, 0, 0, 0, 0, 0, 0, 0, 0, 0, 0, 0, 40]) = [.cumAck 40] ∧
+    upBlock (absSys (Sys.run exS (exRunR.take 2)).1) 1
+      (uplinkTrace (Sys.run exS (exRunR.take 2)).1.cfg.classic 0 5010
+        [0x80, 0x02, 0, 0, 0, 0, 0, 0, 0, 0, 0, 0, 0, 0, 0, 0, 0, 0, 0, 40]) = [] ∧
+    upBlock (absSys (Sys.run exS (exRunR.take 3)).1) 0
+      (uplinkTrace (Sys.run exS (exRunR.take 3)).1.cfg.classic 0 5011 [0x80, 0x03, 0, 0, 0, 0, 0, 41]) =
+        [.retire 41] ∧
+    upBlock (absSys (Sys.run exS (exRunR.take 3)).1) 1
+      (uplinkTrace (Sys.run exS (exRunR.take 3)).1.cfg.classic 0 5011 [0x80, 0x03, 0, 0, 0, 0, 0, 41]) = [] ∧
+    [KOp.send 41, .cumAck 40, .retire 41].foldl kstep [40] = [] :=
+  ⟨by decide +kernel, by decide +kernel, by decide +kernel, by decide +kernel, by decide +kernel, by decide⟩
+
+example := C02_shell_refines_uplink_by_id exS exRunR exS_shellInv exS_inv (by decide +kernel)
+
+end examplesUplinkById
+
+end shellC02UplinkById
+
 end Srtla.Props.C02
